@@ -25,6 +25,13 @@ type ledgerEntry struct {
 	SweepOK map[string]int `json:"sweep_ok,omitempty"`
 }
 
+// sweepNamed: the obligation's name is made of the source text of the checked expression (index, slice, ... of a
+// package-sweep unit or of a function whose contract says `sweep`): a rename makes the name vanish without anything
+// being wrong, so such names are tracked per function/kind (see checkSweep) instead of one by one.
+func sweepNamed(ob *Obligation) bool {
+	return ob.Cheap || safetyKinds[ob.Kind]
+}
+
 func sweepBucket(name string) string {
 	fn, rest, _ := strings.Cut(name, "/")
 	kind, _, _ := strings.Cut(rest, ":")
@@ -37,7 +44,7 @@ func sweepOKCounts(all []*Obligation, unclaimed map[string]string) map[string]in
 		if _, un := unclaimed[ob.group()]; un {
 			continue // instances of an unclaimed group are not run in the quick tier
 		}
-		if ob.Cheap && !ob.Auto && !ob.Smoke && !ob.kfUnrestricted && obOK(ob) {
+		if sweepNamed(ob) && !ob.Auto && !ob.Smoke && !ob.kfUnrestricted && obOK(ob) {
 			m[sweepBucket(ob.Name)]++
 		}
 	}
@@ -159,7 +166,7 @@ func sweepRenameFailures(ent *ledgerEntry, isGenerated func(string) bool, all []
 	}
 	seen := map[string]bool{}
 	for _, ob := range all {
-		if !ob.Cheap || ob.Auto || ob.Smoke || ob.kfUnrestricted || obOK(ob) || ob.Result == "skipped-unclaimed" {
+		if !sweepNamed(ob) || ob.Auto || ob.Smoke || ob.kfUnrestricted || obOK(ob) || ob.Result == "skipped-unclaimed" {
 			continue
 		}
 		g := ob.group()
@@ -252,7 +259,7 @@ func finishCheck(o checkOpts, results []*funcResult, e *Engine, problems []strin
 				ne.Unclaimed[g] = "not claimed: " + dep
 			} else {
 				ne.Claimed = append(ne.Claimed, g)
-				if ob := generated[g]; ob != nil && ob.Cheap {
+				if ob := generated[g]; ob != nil && sweepNamed(ob) {
 					ne.Sweep = append(ne.Sweep, g)
 				}
 			}
